@@ -630,15 +630,15 @@ Proof.
     apply Z.div_mul. lia. }
   unfold pow_mul, raw_mul, s_mul, d_mul, l_mul. destruct (r_kind r) eqn:Hk.
   - pose proof (single_nd r Hwf Hk) as Hd. rewrite Z.div_mul by lia.
-    rewrite call_2by1_ok; [rewrite (lift_mul r x y Hwf); split; reflexivity | exact Hd | nia |].
+    rewrite call_2by1_ok; [unfold xm, ym; rewrite (lift_mul r x y Hwf); split; reflexivity | exact Hd | nia |].
     apply Z.div_lt_upper_bound; [lia | nia].
   - pose proof (double_nd r Hwf Hk) as Hd. rewrite Z.div_mul by lia.
-    rewrite call_4by2_ok; [rewrite (lift_mul r x y Hwf); split; reflexivity | exact Hd | nia |].
+    rewrite call_4by2_ok; [unfold xm, ym; rewrite (lift_mul r x y Hwf); split; reflexivity | exact Hd | nia |].
     apply Z.div_lt_upper_bound; [nia | nia].
   - rewrite l_mul_normalized_ok, l_sqr_normalized_ok by assumption.
     destruct (Z.eqb_spec (xm * 2 ^ r_shift r) (ym * 2 ^ r_shift r)) as [E|NE].
-    + rewrite E at 2. rewrite Eprod, (lift_mul r x y Hwf). split; reflexivity.
-    + rewrite Eprod, (lift_mul r x y Hwf). split; reflexivity.
+    + rewrite E at 2. rewrite Eprod. unfold xm, ym. rewrite (lift_mul r x y Hwf). split; reflexivity.
+    + rewrite Eprod. unfold xm, ym. rewrite (lift_mul r x y Hwf). split; reflexivity.
 Qed.
 
 Lemma raw_sqr_rep r x : ring_wf r ->
@@ -652,12 +652,12 @@ Proof.
     apply Z.div_mul. lia. }
   unfold raw_sqr, s_sqr, d_sqr. destruct (r_kind r) eqn:Hk.
   - pose proof (single_nd r Hwf Hk) as Hd. rewrite Eprod.
-    rewrite call_2by1_ok; [rewrite (lift_mul r x x Hwf); reflexivity | exact Hd | nia |].
+    rewrite call_2by1_ok; [unfold xm; rewrite (lift_mul r x x Hwf); reflexivity | exact Hd | nia |].
     apply Z.div_lt_upper_bound; [lia | nia].
   - pose proof (double_nd r Hwf Hk) as Hd. rewrite Eprod.
-    rewrite call_4by2_ok; [rewrite (lift_mul r x x Hwf); reflexivity | exact Hd | nia |].
+    rewrite call_4by2_ok; [unfold xm; rewrite (lift_mul r x x Hwf); reflexivity | exact Hd | nia |].
     apply Z.div_lt_upper_bound; [nia | nia].
-  - rewrite l_sqr_normalized_ok by assumption. rewrite Eprod, (lift_mul r x x Hwf). reflexivity.
+  - rewrite l_sqr_normalized_ok by assumption. rewrite Eprod. unfold xm. rewrite (lift_mul r x x Hwf). reflexivity.
 Qed.
 
 Theorem mul_ok r x y a b : ring_wf r -> rep r x a -> rep r y b ->
